@@ -191,6 +191,9 @@ def run(ck):
 
     typing_rules(ck, crate("sc", W))
 
+    policy_rules(ck)
+    segment_rules(ck, crate("sc", W))
+
 
 # ---------------------------------------------------------------------------------------------------------------------
 # typing: the validator's instruction arms and its stack primitives against the WebAssembly validation algorithm
@@ -344,3 +347,112 @@ def typing_rules(ck, c):
             ok = len(subs) >= 1 and ("lit", 1) in o and ("arg", 2) in o and has_call_origin(o, r"::len$")
         ck.ob("DEFUSE", f.path, "index-from-top", ok, "frame n is stack[len - n - 1]", f.loc())
         cmp_rejecting(ck, f, [("arg", 2)], [("call", r"::len$")], "Ge", "n>=len-is-None")
+
+
+def policy_rules(ck):
+    """import/export policy of the chain: duplicates and flag-gated imports are refused, exports have the entry-point type"""
+    E_ = "concordium_smart_contract_engine"
+    ce = crate("sc", E_)
+    nimp = nexp = 0
+    for p in sorted(ce.paths()):
+        m = re.search(r"::(v[01])::types::ConcordiumAllowedImports as concordium_wasm::validate::ValidateImportExport>::validate_(import|export)_function$", p)
+        if not m:
+            continue
+        f = Fn(ce.get(p))
+        rr = f.reject_region()
+        if m.group(2) == "import":
+            nimp += 1
+            flags = {}
+            for (sb, st) in f.switches():
+                o = f.origins(st["d"])
+                if st.get("dty") != "bool" or any(a[0] == "call" for a in o):
+                    continue
+                ft = [tb for v, tb in st["t"] if v == "0"]
+                if not ft:
+                    continue
+                frej = ft[0] in rr or rules.const_edge_rejects(f, ft[0])
+                trej = st["o"] in rr or rules.const_edge_rejects(f, st["o"])
+                for a in o:
+                    if a == ("arg", 2):
+                        flags["duplicate"] = (trej and not frej)
+                    elif a[0] == "field" and ("arg", 1) in o:
+                        flags[a[1]] = (frej and not trej)
+            ck.ob("CMP", p, "duplicate-import-refused", flags.get("duplicate") is True, "an import whose name occurs twice is refused", f.loc())
+            adt = ce.adts.get(E_ + "::" + m.group(1) + "::types::ConcordiumAllowedImports")
+            gates = [x["name"] for x in adt["variants"][0]["fields"] if x["ty"] == "bool"] if adt else []
+            for g in gates:
+                ck.ob("CMP", p, "gated-import:" + g, flags.get(g) is True, "imports gated by `%s` are refused when the flag is off" % g, f.loc())
+        else:
+            nexp += 1
+            got = set()
+            for cx in rules.comparisons(f):
+                rel, d = rules.cmp_rejects(f, cx)
+                o = f.origins(cx["a"], deep=True) | f.origins(cx["b"], deep=True)
+                if rel == "Gt" and any(a[0] == "const" and a[1].endswith("MAX_EXPORT_NAME_LEN") for a in o):
+                    got.add("name-length")
+                if rel == "Ne" and ("field", "parameters") in o:
+                    got.add("parameters")
+                if rel == "Ne" and ("field", "result") in o:
+                    got.add("result")
+            alls = f.calls(r"Iterator::all$")
+            if alls and all(rules.enforced_ok(rules.enforcement(f, bi)) for (bi, _) in alls):
+                got.add("characters")
+            want = {"name-length", "parameters", "result", "characters"}
+            ck.ob("CMP", p, "export-conditions-all-necessary", got == want,
+                  "an export is refused when its name is too long or has other characters, or its type is not [i64] -> i32" if got == want else
+                  "conditions that no longer force a refusal: %s" % sorted(want - got), f.loc())
+    ck.floor("CMP", "import policy functions", nimp, 2)
+    ck.floor("CMP", "export policy functions", nexp, 2)
+
+
+def segment_rules(ck, c):
+    """exactness of the module-level bounds: a segment may end exactly at the declared minimum size, a function index must
+    be strictly below the number of functions"""
+    V = W + "::validate::"
+    n = 0
+    for p in sorted(c.paths()):
+        if not re.search(r"validate::validate_module(::\{closure#\d+\})*$", p):
+            continue
+        f = Fn(c.get(p))
+        is_closure = "{closure" in p
+        for cx in rules.comparisons(f):
+            rel, d = rules.cmp_rejects(f, cx)
+            oa, ob = f.origins(cx["a"]), f.origins(cx["b"])
+            if rel is None:
+                continue
+            if ("field", "min") in ob or ("field", "min") in oa:
+                if ("field", "min") in oa:
+                    rel = rules.FLIP[rel]
+                n += 1
+                ck.ob("CMP", p, "segment-end-vs-minimum-size@%d" % n, rel == "Gt",
+                      "rejects exactly when the end of the segment (or its length) exceeds the declared minimum size" if rel == "Gt" else
+                      "rejects when end %s size: %s" % (rel, "a segment that fills the table/memory exactly is refused" if rel == "Ge" else "an overlong segment is admitted"), f.loc(cx["bb"]))
+            elif has_call_origin(oa, r"Iterator::next$") and (has_call_origin(ob, r"::len$") or has_call_origin(ob, r"::count$")):
+                n += 1
+                ck.ob("CMP", p, "function-index-below-count@%d" % n, rel == "Ge", "an element that is not the index of an existing function (index >= number of functions) is refused" if rel == "Ge" else
+                      "rejects when index %s count: the index equal to the number of functions is admitted" % rel, f.loc(cx["bb"]))
+            elif is_closure and d == "returned as verdict" and ("arg", 2) in (oa | ob):
+                if ("arg", 2) in oa:
+                    rel = rules.FLIP[rel]
+                n += 1
+                ck.ob("CMP", p, "clamped-end-vs-size@%d" % n, rel == "Gt", "the closure accepts end <= size (rejects exactly when end > size)" if rel == "Gt" else "the closure rejects when end %s size" % rel, f.loc(cx["bb"]))
+            elif cx["op"] in ("Eq", "Ne") and has_call_origin(oa, r"::len$") and has_call_origin(ob, r"::len$"):
+                n += 1
+                ck.ob("CMP", p, "functions-and-bodies-same-number@%d" % n, rel == "Ne", "the numbers of declared functions and of bodies must agree", f.loc(cx["bb"]))
+    ck.floor("CMP", "module-level bound comparisons", n, 5)
+    # the magic number and the version are read from the input before they are compared
+    f = getfn(ck, "sc", W, W + "::parse::parse_skeleton")
+    if f:
+        reads = f.calls(r"io::Read::read_exact$|Read>::read_exact$")
+        k = 0
+        for cx in rules.comparisons(f):
+            o = f.origins(cx["a"], deep=True) | f.origins(cx["b"], deep=True)
+            consts = [a[1].split("::")[-1] for a in o if a[0] == "const"]
+            if cx["kind"] == "call" and any(x in ("MAGIC_HASH", "VERSION") for x in consts):
+                k += 1
+                rel, d = rules.cmp_rejects(f, cx)
+                fresh = [bi for (bi, t) in reads if f.dominates(bi, cx["bb"]) and not any(f.dominates(bi, cb) and f.dominates(cb, cx["bb"]) and cb != cx["bb"] and cb != bi for cb in
+                                                                                       [c2["bb"] for c2 in rules.comparisons(f) if c2["kind"] == "call" and c2 is not cx and any(a[0] == "const" and a[1].split("::")[-1] in ("MAGIC_HASH", "VERSION") for a in f.origins(c2["a"], deep=True) | f.origins(c2["b"], deep=True))])]
+                ck.ob("DEFUSE", f.path, "header-word-read-then-compared:" + "/".join(sorted(set(consts) & {"MAGIC_HASH", "VERSION"})), rel == "Ne" and len(fresh) >= 1,
+                      "four bytes are read immediately before being compared with the constant, and a difference rejects", f.loc(cx["bb"]))
+        ck.ob("DEFUSE", f.path, "header-words", k == 2, "%d header comparisons" % k, f.loc(), nontrivial=False)
